@@ -537,6 +537,18 @@ struct Engine
                 m[t].el.push_back(e);
                 break;
             }
+            case O_EBS:
+            {
+                if constexpr (COPYABLE)
+                {
+                    const std::size_t i = static_cast<std::size_t>(o.a[1]);
+                    Elem e = m[t].el[i];
+                    e.id = mex();
+                    LS::emplace_from_ref(*v[t], std::as_const(*v[t])[i]);
+                    m[t].el.push_back(e);
+                }
+                break;
+            }
             case O_FILL:
             {
                 pre_empty = m[t].el.empty();
@@ -2384,6 +2396,15 @@ struct Engine
                     c[k] = 0;
                 }
                 if (k == LS::NV) break;
+            }
+        }
+        if (COPYABLE && n > 0 && n < mm.cap && !prm.wide)
+        {
+            // arguments that alias the vector: copies of the first and of the last element
+            for (std::size_t i : {std::size_t{0}, n - 1})
+            {
+                if (i == n - 1 && n == 1) continue;
+                if (LS::payload_bytes(mm.el[i]) <= mm.budget - mm.used()) out.push_back(mk(O_EBS, t, static_cast<int>(i)));
             }
         }
         if (prm.wide && n < mm.cap)
